@@ -167,6 +167,8 @@ def parse_spec(path):
                     f.mutself = True
                 elif k == "r12":
                     f.r12 = True
+                elif k == "r12opt":
+                    f.r12 = "opt"
                 elif k == "external_body":
                     f.attrs.append("#[verifier::external_body]")
                     f.nobody = False
@@ -328,7 +330,7 @@ def invert_named_return(tt):
 POSTFIX_STOP = {"=", "{", "}", ";", ",", "=>", "else", "return", "(", "[", "&&", "||", "!", "==", "!=", "<", ">", "+", "-", "*", "/", "&", "|", "in", "if", "match", "let", "?"}
 
 
-def inline_result_combinators(body, qual):
+def inline_result_combinators(body, qual, option=False):
     """R12: a chain  E0.c1(a1).c2(a2)...  of std Result combinators (and_then / map / map_err, each
     applied to a closure literal or a path) becomes, in A-normal form,
         let t1_ = E0;  let t2_ = <c1 applied to t1_>;  ...  <cN applied to tN_>
@@ -369,8 +371,17 @@ def inline_result_combinators(body, qual):
         recv = body[toks[r0].start:toks[i - 2].end]
         # statement start: after the closest `;`, `{` or `}` to the left at this nesting depth
         k = r0 - 1
-        while k >= 0 and toks[k].text not in (";", "{", "}"):
-            if toks[k].text in (")", "]"):
+        while k >= 0:
+            tx = toks[k].text
+            if tx in (";", "}"):
+                break
+            if tx == "{":
+                # `TypeName {` opens a struct literal, not a block: keep scanning to the left of it
+                if k > 0 and toks[k - 1].kind == "ident" and toks[k - 1].text[:1].isupper():
+                    k -= 1
+                    continue
+                break
+            if tx in (")", "]"):
                 k = pair[k]
             k -= 1
         stmt_pos = toks[k].end if k >= 0 else 0
@@ -391,6 +402,8 @@ def inline_result_combinators(body, qual):
                 cbody = body[arg_toks[q + 1].start:arg_toks[-1].end]
                 if name == "and_then":
                     e = "match %s { Ok(%s) => %s, Err(e_) => Err(e_) }" % (cur, pat, cbody)
+                elif name == "map" and option:
+                    e = "match %s { Some(%s) => Some(%s), None => None }" % (cur, pat, cbody)
                 elif name == "map":
                     e = "match %s { Ok(%s) => Ok(%s), Err(e_) => Err(e_) }" % (cur, pat, cbody)
                 else:
@@ -799,7 +812,7 @@ class Gen:
                 used_rewrites.add(n)
         r12 = bool(fs and fs.r12)
         if r12:
-            body = inline_result_combinators(body, qual)
+            body = inline_result_combinators(body, qual, option=(fs.r12 == "opt"))
             self.rule_uses.append(("R12", qual))
         desug = [c for c in (fs.clauses if fs else []) if c["kind"] == "desugar"]
         if desug:
@@ -932,7 +945,7 @@ class Gen:
         src_fn_text = sf.text[b0:sf.toks[g_body_hi].end]
         if r12:
             # R12 has no independent inverse: the expected tokens use the same routine (see DESIGN 2.2)
-            src_fn_text = sf.text[b0:sf.toks[g_body_lo].start] + inline_result_combinators(sf.text[sf.toks[g_body_lo].start:sf.toks[g_body_hi].end], qual)
+            src_fn_text = sf.text[b0:sf.toks[g_body_lo].start] + inline_result_combinators(sf.text[sf.toks[g_body_lo].start:sf.toks[g_body_hi].end], qual, option=(fs.r12 == "opt"))
         exp = expected_tokens(src_fn_text, rewrites, True)
         rule = ("R7:" + ",".join(c["text"].strip() for c in desug)) if desug else ("R8" if has_ens else None)
         if mutself:
